@@ -351,8 +351,17 @@ def run_tm_case(ctx: Ctx | None, case: dict) -> None:
             elif kind == "advance":
                 await asyncio.sleep(op[1])
             elif kind == "shutdown":
+                earlier = set(cancelling) & set(running)      # cancelled before the shutdown, still cleaning up
                 await tm.shutdown_task_manager()
                 shutdown_done[0] = True
+                late = [n for me, n in running.items() if me not in earlier]
+                if late:
+                    fail("T3", "running_at_shutdown_return", f"shutdown_task_manager() returned while bodies "
+                                                             f"{sorted(late)} had not finished (still cleaning up)")
+                if running:
+                    fail("T3", "running_at_shutdown_return:cancelled_earlier",
+                         f"shutdown_task_manager() returned while bodies {sorted(running.values())}, cancelled before the "
+                         f"shutdown by cancel_pending_task / replace_task, were still cleaning up")
             # every body that is running must belong to a task the manager still tracks (else shutdown cannot stop it)
             if not shutdown_done[0]:
                 # let cancellations requested by this operation unwind (a cancelled body leaves at the next iteration)
